@@ -8,13 +8,16 @@ under virtual time, default schedule: sched, sched_abs, clear), parallel
 pattern streams (Ppar), exit actions (main._atexitq drained by
 main._shutdown), and a fill-disturb-drain family with 5-6 live entries.
 
+Entries that are due at the very instant at which an earlier entry of that
+instant runs are pending like any other (re-scheduling moves them, clear()
+cancels them): 'sametick' programs on every clock in both modes, and the app
+clock's Scheduler driven directly (both recursive modes).  clear() removes a
+clock's pending entries in NRT mode as well.
+
 Don't-cares: the unit of OscScore.duration; the time a score entry gets for a
-"no time" (None) or negative bundle time (only its order is judged); NRT
-clock.clear() (documented no-op); the order between entries of different
-real-time clocks; what the app clock does with entries that are due in the
-same tick as the task re-scheduling them (model flags, never met by the
-enumerated programs); plain functions scheduled more than once (each sched()
-wraps them anew)."""
+"no time" (None) or negative bundle time (only its order is judged); the
+order between entries of different real-time clocks; plain functions scheduled
+more than once (each sched() wraps them anew)."""
 
 from mc import core
 from mc.engines import histbfs
@@ -497,6 +500,40 @@ def oneclock_programs():
     return out
 
 
+def sametick_programs():
+    """Several entries due at the SAME instant of one clock, the controller
+    among them and not the last one: k (first, or between f0 and r0) yields
+    1.0 at time 0, f0 and r0 re-schedule themselves to 1.0 as well; at 1.0 the
+    controller re-schedules (to the same instant, a little later, much later)
+    or clears entries that are due right now but have not come out yet.  The
+    real-time app clock collects everything that is due in one tick before
+    awakening it: those entries are pending all the same."""
+    out = []
+    for C in ('s', 't2', 'a'):
+        ops1 = [['sched', C, d, t] for d in (0, 0.25, 5.0)
+                for t in ('f0', 'r0')]
+        if C != 'a':
+            ops1 += [['sched_abs', C, 6.0, t] for t in ('f0', 'r0')]
+        ops1 += [['clear', C]]
+        ops2 = [None] + [['sched', C, d, t] for d in (0.25, 5.0)
+                         for t in ('f0', 'r0')]
+        for kpos in (0, 1):
+            for op1 in ops1:
+                for op2 in ops2:
+                    if op2 == op1:
+                        continue
+                    k = [['yield', 1.0], op1] + ([op2] if op2 else [])
+                    main = [['sched', C, 0, 'f0'], ['sched', C, 0, 'r0']]
+                    main.insert(kpos, ['play', 'k', C, 0])
+                    out.append({
+                        'clocks': {'s': NS_SPEC['s'], C: NS_SPEC[C]},
+                        'funcs': {'f0': F3},
+                        'routines': {'k': k, 'r0': R3},
+                        'actors': {'main': main},
+                        'horizon': 16.0})
+    return out
+
+
 def tempo_programs():
     """NRT: three tasks pending on TempoClock(2) (f0, r0 re-schedule
     themselves, g0 is awakened once), with ties in beats and every heap
@@ -574,10 +611,12 @@ def clock_cases():
     """All cases of the additional clock-task families: [family, mode, prog]."""
     out = []
     for prog in oneclock_programs():
-        if not _has(prog, 'clear'):
-            # in NRT mode clear() is documented to do nothing: not decided
-            out.append(['oneclock', 'nrt', prog])
+        # clear() removes the pending entries of that clock in both modes
+        out.append(['oneclock', 'nrt', prog])
         out.append(['oneclock', 'rt', prog])
+    for prog in sametick_programs():
+        out.append(['sametick', 'nrt', prog])
+        out.append(['sametick', 'rt', prog])
     for prog in tempo_programs():
         out.append(['tempo', 'nrt', prog])
     for prog in reset_programs():
@@ -688,16 +727,21 @@ def clock_check(family, mode, prog):
 def clock_work(job):
     from mc.engines import progenum
     acc = progenum.Acc(max_samples=2)
-    n = -1
+    n = m = -1
     for family, mode, prog in clock_cases():
         if mode != job['mode']:
             continue
-        n += 1
-        if n % job['of'] != job['shard']:
-            continue
-        if job.get('slice_of') and (n // job['of']) % job['slice_of'] != \
-                job['slice_ix']:
-            continue
+        if family == 'sametick':        # small: always run in full
+            m += 1
+            if m % job['of'] != job['shard']:
+                continue
+        else:
+            n += 1
+            if n % job['of'] != job['shard']:
+                continue
+            if job.get('slice_of') and \
+                    (n // job['of']) % job['slice_of'] != job['slice_ix']:
+                continue
         dis, got, decided = clock_check(family, mode, prog)
         case = {'part': 'clock', 'family': family, 'mode': mode,
                 'prog': prog}
@@ -708,6 +752,122 @@ def clock_work(job):
             acc.case(case, decided == 1, got, steps=len(got))
         else:
             acc.count('undecided:' + ','.join(got))
+    return acc.result()
+
+
+# ---------------------------------------------------------------------------
+# The app clock's scheduler driven directly: Scheduler(AppClock, drift=False)
+# ---------------------------------------------------------------------------
+
+def sched_cases():
+    """a@1, b@1, c@2 (three insertion orders); when a is awakened it
+    re-schedules b / c / itself to 6, clears, or both; a and b may return a
+    delta; then `seconds` is advanced in steps (each step awakens what is due:
+    in the non-recursive mode - the real-time AppClock's - the whole expired
+    batch is collected first).  Every new time is >= the latest time of the
+    batch in which it is made, so that both modes drain in the same order."""
+    acts = [[], [['sched', 5.0, 'b']], [['sched_abs', 6.0, 'b']],
+            [['sched', 5.0, 'c']], [['sched_abs', 6.0, 'c']], [['clear']],
+            [['clear'], ['sched', 5.0, 'b']],
+            [['sched', 5.0, 'b'], ['sched', 5.0, 'c']],
+            [['sched', 5.0, 'a']]]
+    out = []
+    for init in ([['a', 1], ['b', 1], ['c', 2]], [['b', 1], ['a', 1], ['c', 2]],
+                 [['c', 2], ['a', 1], ['b', 1]]):
+        for act in acts:
+            for ra in ([], [1.0]):
+                for rb in ([], [1.0]):
+                    for rec in (False, True):
+                        # (the last steps only drain what was re-scheduled
+                        # in the step before)
+                        for adv in ([3, 10, 20, 40], [10, 20, 40],
+                                    [1, 2, 3, 10, 20, 40]):
+                            out.append({'init': init, 'actions': {'a': act},
+                                        'returns': {'a': ra, 'b': rb},
+                                        'recursive': rec, 'advances': adv})
+    return out
+
+
+def sched_check(case):
+    from mc.oracles import timeq_ref
+    from sc3.base.clock import Scheduler, AppClock
+    from sc3.base.main import main
+    main.reset()
+    exp = timeq_ref.scheduler_expected(case)
+    s = Scheduler(AppClock, drift=False, recursive=case['recursive'])
+    log = []
+    tasks = {}
+
+    class Task:
+        def __init__(self, name):
+            self.name = name
+            self.n = 0
+
+        def __awake__(self, clock):
+            log.append([self.name, s.seconds])
+            n = self.n
+            self.n += 1
+            if n == 0:
+                for op in case['actions'].get(self.name, []):
+                    if op[0] == 'sched':
+                        s.sched(op[1], tasks[op[2]])
+                    elif op[0] == 'sched_abs':
+                        s.sched_abs(op[1], tasks[op[2]])
+                    else:
+                        s.clear()
+            rets = case['returns'].get(self.name, [])
+            return rets[n] if n < len(rets) else None
+
+    for name in 'abc':
+        tasks[name] = Task(name)
+    dis = []
+    try:
+        for name, t in case['init']:
+            s.sched_abs(t, tasks[name])
+        for v in case['advances']:
+            s.seconds = v
+        left = [[p, t.name] for p, t in s.queue]
+        emp = s.empty()
+    except Exception as e:
+        log.append(['raises', type(e).__name__])
+        left, emp = [], True
+    finally:
+        main.reset()
+    if log != exp:
+        n = 0
+        while n < min(len(log), len(exp)) and log[n] == exp[n]:
+            n += 1
+        g = log[n] if n < len(log) else None
+        e = exp[n] if n < len(exp) else None
+        names = [x[0] for x in log]
+        if log and log[-1][0] == 'raises':
+            kind = 'scheduler-raises'
+        elif any(names.count(x) > [y[0] for y in exp].count(x)
+                 for x in set(names)):
+            kind = 'scheduler-task-awakened-more-than-scheduled'
+        elif len(log) < len(exp):
+            kind = 'scheduler-task-lost'
+        else:
+            kind = 'scheduler-order-or-time'
+        dis.append((kind, exp, log, f'first difference at entry {n}: '
+                    f'expected {e}, observed {g} ([task, seconds])'))
+    if left or not emp:
+        dis.append(('scheduler-not-empty-after-drain', [[], True],
+                    [left, emp], ''))
+    return dis, log
+
+
+def sched_work(job):
+    from mc.engines import progenum
+    acc = progenum.Acc(max_samples=2)
+    for i, case0 in enumerate(sched_cases()):
+        if i % job['of'] != job['shard']:
+            continue
+        dis, log = sched_check(case0)
+        case = dict(case0, part='sched')
+        for kind, exp, obs, detail in dis:
+            acc.violation(kind, case, exp, obs, detail)
+        acc.case(case, bool(case0['actions']['a']), log, steps=len(log))
     return acc.result()
 
 
@@ -1045,6 +1205,8 @@ def _hist_replay(job):
     if part == 'clock':
         dis, got, _ = clock_check(case['family'], case['mode'], case['prog'])
         return pack(dis, got)
+    if part == 'sched':
+        return pack(*sched_check(case))
     if part == 'ppar':
         return pack(*ppar_check(case['node']))
     if part == 'exit':
@@ -1078,7 +1240,10 @@ def main(ctx):
                 '(clock, task) schedulings; one-clock programs (sched, '
                 'sched_abs, clear) also on the real-time clocks under virtual '
                 'time; tempo/beats changes with tied pending entries; '
-                'main.reset() with pending entries. Ppar (E1): all small '
+                'main.reset() with pending entries; programs in which '
+                'several entries are due at one instant and an earlier one '
+                're-schedules / clears a later one, and the app clock\'s '
+                'Scheduler driven directly. Ppar (E1): all small '
                 'trees of parallel children with durations {0,0.5,1}; exit '
                 'actions (E1): all add/remove histories on main._atexitq '
                 'followed by main._shutdown(); OscScore (E2) through '
@@ -1144,10 +1309,17 @@ def main(ctx):
         progenum.run(ctx, MODNAME, 'clock_work', jobs, mode=mode,
                      bound=f'clock tasks ({mode}): one-clock controller '
                            'programs (sched / sched_abs / clear / controller '
-                           're-scheduling itself, plain function alongside)' +
+                           're-scheduling itself, plain function alongside; '
+                           'same-instant programs in full)' +
                            (', tempo/beats change with 3 pending entries, '
                             'main.reset()' if mode == 'nrt' else
                             ' on the real-time clocks, default schedule') + sl)
+    jobs = [{'shard': i, 'of': 16} for i in range(16)]
+    progenum.run(ctx, MODNAME, 'sched_work', jobs, mode='nrt',
+                 bound='Scheduler(AppClock, drift=False) driven directly: '
+                       'a@1 b@1 c@2 x 3 insertion orders x 9 actions of a x '
+                       'returns of a, b x recursive / not x 3 ways to '
+                       'advance `seconds`')
     jobs = [{'shard': i, 'of': 32, 'tier': ctx.tier} for i in range(32)]
     progenum.run(ctx, MODNAME, 'ppar_work', jobs, mode='nrt',
                  bound='Ppar: 2 children x <=3 events, 3 children x <=' +
